@@ -256,7 +256,7 @@ func c06Cleanup(p *Program, r *Report) {
 	if lc == nil {
 		return
 	}
-	g := p.ig(lc.Cleanup)
+	g := p.igx(lc.Cleanup) // single-call helpers of the cleanup step (e.g. an extracted notification loop) stay part of its paths
 	term := p.assumeAvoid(g, map[*types.Var]bool{lc.Continue: true, lc.Restarting: false})
 	rest := p.assumeAvoid(g, map[*types.Var]bool{lc.Continue: true, lc.Restarting: true})
 	type eff struct {
@@ -287,7 +287,11 @@ func c06Cleanup(p *Program, r *Report) {
 	// tells
 	var parentTell, watcherTell = map[int]bool{}, map[int]bool{}
 	okMsg := true
-	for _, ts := range p.tellSites(lc.Cleanup) {
+	var cleanupTells []tellSite
+	for _, f := range g.Fns {
+		cleanupTells = append(cleanupTells, p.tellSites(f)...)
+	}
+	for _, ts := range cleanupTells {
 		rec := p.origins(ts.Recipient)
 		n := g.Idx[ts.In]
 		switch {
